@@ -161,6 +161,57 @@ CLAIMS = {
               "assumption on the gradient field because non-crossing iterations are not counted by the budget - the model "
               "runs with fuel and the real code under a watchdog. Tube and 'always a ray for homogeneous equal spacing' are "
               "checked by the oracle. Known finding: rays get stuck on a hull face when the gradient points outward.")),
+    "C01": dict(
+        category="proof", design_ref="DESIGN.md §8 C01",
+        technique="Lean 4 local-exactness theorems over the reals (t_ana = slowness x distance, exact perturbation operator, plane-wave exact 4-point operator) + bit-level kernel correspondence + analytic oracle with the property's tolerances",
+        text=("Proved over the reals: with the source converted to grid units t_ana is slowness x Euclidean distance (2D, 3D), so "
+              "the conversion physical->grid units and the analytic initialisation around the source are exact; with zero "
+              "perturbations the quadratic of the perturbation operator returns the analytic time, hence inside the +-5 box the "
+              "operator's candidate is exact when its upwind neighbours are; the 4-point operator is exact on plane waves. The "
+              "global clauses (exact to rounding within five cells, ~1% beyond for aspect <= 2, 3D error <= one cell crossing "
+              "time) are numerical analysis of the composed scheme: not proved, checked against distance/velocity on the running "
+              "code over shapes incl. 1-cell-thick, spacings, origins, velocities and all source classes. The formulas are tied "
+              "by bit-level correspondence of fteik2d/3d.")),
+    "C02": dict(
+        category="proof", design_ref="DESIGN.md §8 C02",
+        technique="Lean 4 theorems on the registration of velocity cells and the fixed-point edge bound + bit-level kernel correspondence on layered/half-space/gradient media + exact first-arrival oracles (layer stack, Fermat half-spaces incl. head waves, constant gradient) with refinement",
+        text=("Proved: which cells each operator reads (1-D operators: minimum slowness of the cells adjoining the edge; 2-D operator: "
+              "the upwind cell of its quadrant), that at a sweep fixed point the time grows along a grid edge by at most d x that "
+              "edge slowness, and plane-wave exactness of the 4-point operator. The first-order error bound against exact "
+              "solutions and its decrease under refinement are convergence statements, not proved: the running code is compared "
+              "with the cumulative-sum time along the grid line of a layer stack (to rounding for equal spacings), with Fermat "
+              "times for two half-spaces (direct, head, transmitted; source on either side of / on / near the interface; every "
+              "orientation) and with the closed form for constant gradients, at h and h/2.")),
+    "C03": dict(
+        category="proof", design_ref="DESIGN.md §8 C03",
+        technique="Lean 4 case analysis of the source classification and of the domain check (exact arithmetic / parametric) + bit-level correspondence on sources within floating-point rounding of grid lines + sanity oracle on the running code",
+        text=("Proved: the solver raises iff the source is outside the closed model; a coordinate exactly on a grid line or on the "
+              "far boundary is classified as on-line, has sub-cell distance 0 on one side and the guarded blocks skip the "
+              "division by it; vzero is the slowness of the cell min(floor(zsa), n-1); the result record carries spacing, origin "
+              "and source. Floating-point neighbourhoods of grid lines cannot be a for-all theorem: they are covered by "
+              "bit-level correspondence of model and code on decimal multiples, +-k ulp and 1e-16..1e-4 offsets, and by the "
+              "sanity oracle (no exception, finite, >= 0, below the grid-path bound, zero only at the source, record fields). "
+              "Known finding (open): 2D sources within (1e-15, 1e-8) cells of a grid line give times around -1e5.")),
+    "C04": dict(
+        category="proof", design_ref="DESIGN.md §8 C04",
+        technique="Lean 4 theorem for every scalar type: a sweep fixed point admits no candidate below any stored time; schedule coverage of every edge; hence the two-sided edge bound - plus AST schema facts and a fixed-point oracle on the running code",
+        text=("Proved for every scalar type with an irreflexive, transitive, negatively transitive '<' (so for doubles, to "
+              "rounding): if a full 2D sweep changes nothing then no candidate of any node update is below the stored time; every "
+              "grid edge is relaxed in both directions by some quadrant, for every shape; therefore at a fixed point adjacent "
+              "nodes differ by at most edge length x minimum slowness of the adjoining cells, both ways. Also: the 4-point "
+              "radicand is non-negative under its guard. The 3D edge bound and the physical lower bound s_min x distance (true "
+              "only up to discretisation) are not proved; the running code is iterated to a bit-identical fixed point and every "
+              "edge checked in double arithmetic, and the lower bound checked with a tolerance of 0.75 cell crossing times.")),
+    "C18": dict(
+        category="proof", design_ref="DESIGN.md §8 C18",
+        technique="Lean 4 symmetry lemmas over the reals (t_ana, 4-point operator, 1-D copies, interpolation weights) + kernel correspondence on transposed models + permuted/mirrored solves mapped back",
+        text=("Proved over the reals: t_ana and the 4-point operator are invariant under exchanging the axes, the plane-wave "
+              "operator commutes with transposition whenever its 4-point guard holds, the Z and X copies of the 1-D operator are "
+              "the same formula on the transposed model, the separable interpolation weights are symmetric. Partial: the fixed "
+              "order of the two 3-point operators and the sweep order break exact invariance, so computed fields agree only "
+              "within the discretisation tolerance - checked on the running code for all axis permutations and mirrorings "
+              "(tolerance one cell crossing time; rounding-level for 2D homogeneous equal spacing and for the interpolators). "
+              "Known finding: 3D homogeneous equal-spacing fields are not permutation-invariant to rounding.")),
 }
 
 WIP = "check not registered yet in this revision (model/theorems under construction); see DESIGN.md §8"
